@@ -12,7 +12,7 @@ git -C /repo worktree add -q --detach $W HEAD || exit 2
 git -C $W apply /verif/seeded/$seed/patch.diff || { echo "$seed apply-failed" >> $OUT/summary.txt; exit 2; }
 for p in "$@"; do
   s=$(date +%s)
-  (cd /verif && VERIF_REPO=$W VERIF_SCRATCH=/var/tmp/se-$seed-$p VERIF_JOBS=${VERIF_JOBS:-7} VERIF_MEM_GB=${VERIF_MEM_GB:-26} timeout 3600 ./check $p --tier ${TIER:-quick} > $OUT/$seed.$p.log 2>&1)
+  (cd /verif && VERIF_EVIDENCE_DIR=$OUT/evidence-$seed VERIF_REPLAY_DIR=$OUT/replays VERIF_REPO=$W VERIF_SCRATCH=/var/tmp/se-$seed-$p VERIF_JOBS=${VERIF_JOBS:-7} VERIF_MEM_GB=${VERIF_MEM_GB:-26} timeout 3600 ./check $p --tier ${TIER:-quick} > $OUT/$seed.$p.log 2>&1)
   rc=$?
   v=$(grep -c "^VIOLATION" $OUT/$seed.$p.log)
   echo "$seed $p rc=$rc violations=$v $(( $(date +%s) - s ))s :: $(grep -m1 -A1 '^VIOLATION' $OUT/$seed.$p.log | tail -1 | cut -c1-160)" >> $OUT/summary.txt
